@@ -73,6 +73,8 @@ def canon_op(op):
         return "send:2:" + ":".join(a[1:])
     if a[0] == "sendtext":
         return "sendt:" + a[1]
+    if a[0] in ("sendfo", "sendfp"):
+        return "sendf:" + ":".join(a[1:])      # one frame object re-used / rendered by the caller first: still one fresh frame per write
     return op
 
 
@@ -157,6 +159,7 @@ def run_impl(cfg, events, ops, trace=False, payload_type=bytes, keymode="script"
     old_time = _core.time
     _core.time = ft
     outs = []
+    _FRAMES.pop(id(ws), None)
     try:
         for op in ops:
             before = len(sock.sent)
@@ -191,6 +194,23 @@ def run_impl(cfg, events, ops, trace=False, payload_type=bytes, keymode="script"
                 elif a[0] == "sendf":
                     p = payload_type(parse_bytes(":".join(a[3:])))
                     fr = websocket.ABNF.create_frame(p, int(a[2]), int(a[1]))
+                    res = f"N:{ws.send_frame(fr)}"
+                elif a[0] == "sendfo":
+                    # send_frame() with ONE frame object re-used for every write (the docstring of send_frame does that): its
+                    # fin / opcode / data are reassigned in between; each write is a fresh frame with a freshly drawn key
+                    p = payload_type(parse_bytes(":".join(a[3:])))
+                    fr = _FRAMES.get(id(ws))
+                    if fr is None:
+                        fr = _FRAMES[id(ws)] = websocket.ABNF.create_frame(p, int(a[2]), int(a[1]))
+                    else:
+                        fr.fin, fr.opcode, fr.data = int(a[1]), int(a[2]), (p.encode("utf-8") if isinstance(p, str) else p)
+                    res = f"N:{ws.send_frame(fr)}"
+                elif a[0] == "sendfp":
+                    # the application renders the frame itself first (to measure or log it), then hands it to send_frame()
+                    p = payload_type(parse_bytes(":".join(a[3:])))
+                    fr = websocket.ABNF.create_frame(p, int(a[2]), int(a[1]))
+                    if keymode != "urandom":
+                        fr.format()
                     res = f"N:{ws.send_frame(fr)}"
                 elif a[0] in ("sendt", "pingt", "pongt"):
                     # a str payload given by its code points (surrogates included: they cannot be encoded)
@@ -245,7 +265,28 @@ def run_impl(cfg, events, ops, trace=False, payload_type=bytes, keymode="script"
     return ";".join(outs), ws, sock
 
 
+import contextlib
+
+
+@contextlib.contextmanager
+def tracing(on=True):
+    """enableTrace(True) with a handler that discards the lines; restored afterwards."""
+    import logging
+    import websocket
+    lg = websocket._logging._logger
+    old_level, old_handlers = lg.level, lg.handlers[:]
+    if on:
+        websocket.enableTrace(True, handler=logging.NullHandler())
+    try:
+        yield
+    finally:
+        websocket._logging._traceEnabled = False
+        lg.setLevel(old_level)
+        lg.handlers[:] = old_handlers
+
+
 _LAST = {}
+_FRAMES = {}
 
 
 def _last_was_text(ws):
